@@ -67,6 +67,9 @@ type planReader struct {
 	// zero counts consecutive (0,nil) results; bounded to keep within the
 	// io.Reader conventions ReadFrom relies on
 	zero int
+	// failAfterPlan: once the plan is used up every call fails (a reader
+	// that is broken for good)
+	failAfterPlan bool
 }
 
 func (r *planReader) Read(p []byte) (int, error) {
@@ -79,6 +82,9 @@ func (r *planReader) Read(p []byte) (int, error) {
 		st = RStep{N: len(p)}
 		if r.pos >= len(r.data) {
 			st = RStep{N: 0, Err: 1}
+		}
+		if r.failAfterPlan {
+			st = RStep{N: 0, Err: 2}
 		}
 	}
 	n := st.N
